@@ -38,7 +38,7 @@ func Add(dst, s []complex128) {
 	if len(dst) != len(s) {
 		panic(badLength)
 	}
-	c128.AxpyUnitaryTo(dst, 1, s, dst)
+	c128.Add(dst, s)
 }
 
 // AddTo adds, element-wise, the elements of s and t and
@@ -51,7 +51,9 @@ func AddTo(dst, s, t []complex128) []complex128 {
 	if len(dst) != len(s) {
 		panic(badDstLength)
 	}
-	c128.AxpyUnitaryTo(dst, 1, s, t)
+	for i, v := range s {
+		dst[i] = v + t[i]
+	}
 	return dst
 }
 
@@ -697,7 +699,9 @@ func Sub(dst, s []complex128) {
 	if len(dst) != len(s) {
 		panic(badLength)
 	}
-	c128.AxpyUnitaryTo(dst, -1, s, dst)
+	for i, v := range s {
+		dst[i] -= v
+	}
 }
 
 // SubTo subtracts, element-wise, the elements of t from s and
@@ -710,7 +714,9 @@ func SubTo(dst, s, t []complex128) []complex128 {
 	if len(dst) != len(s) {
 		panic(badDstLength)
 	}
-	c128.AxpyUnitaryTo(dst, -1, t, s)
+	for i, v := range s {
+		dst[i] = v - t[i]
+	}
 	return dst
 }
 
